@@ -13,7 +13,7 @@
    the request of page k ends without rows with error e (DontRetry, client timeout, plan
    exhausted, empty plan, no connection, non-Rows response, IgnoreWriteError).  All statements hold for every script (any number
    of pages, rows, faults) and every schedule. *)
-From SV Require Import Base.Prelude Model.Pager Proofs.Pager_proofs.
+From SV Require Import Base.Prelude Model.Pager Proofs.Pager_proofs Proofs.C07_round4.
 Open Scope N_scope.
 
 (* the rows of the pages in server order, each once, then the end -- whatever the schedule,
@@ -311,6 +311,72 @@ Theorem C07_coordinator_page_lengths : forall nodes, NoDup nodes -> nodes <> [] 
       (firstn (List.length (worker_targets stable script)) script).
 Proof. exact targets_count. Qed.
 
+(* ---- deepening round 4: what the extracted acceptors / predicates of the driver MEAN ---------- *)
+
+(* [accept_full] is exact comparison with the sequential reference [seq_run] (items through
+   [obs_items]: a constructor error reads "error, end"; a stuck reference reads as no items) *)
+Theorem C07_accept_full_exact : forall m script oi ok,
+  accept_full m script oi ok = true <->
+  oi = obs_items (snd (seq_run m script)) /\ ok = map req_key (fst (seq_run m script)).
+Proof. exact accept_full_iff. Qed.
+
+(* the property predicates as propositions: every observed request carries the state returned with
+   the page before it, and IF the expected stream is defined the items are it (its first cnt
+   items); so on a script that lets the server go silent only the states are constrained *)
+Theorem C07_prop_predicates_meaning : forall m n script,
+  (forall oi ok, prop_full_ok m n script oi ok = true <->
+     (forall i st, In (i, st) ok -> st = spec_state (script_pages script) i) /\
+     (forall its, expected true m n true script = Some its -> oi = its)) /\
+  (forall cnt oi ok, prop_drop_ok m n script cnt oi ok = true <->
+     (forall i st, In (i, st) ok -> st = spec_state (script_pages script) i) /\
+     (forall its, expected true m n true script = Some its -> oi = firstn cnt its)).
+Proof. exact prop_ok_iff. Qed.
+
+(* the constructor flag the timeout acceptors compare *)
+Theorem C07_ctor_fails_iff : forall m script,
+  (ctor_fails m script = true <-> exists rq0 e, start m script = (rq0, SFail e)) /\
+  (forall s0, pager_init m script = Some s0 -> ctor_fails m script = false).
+Proof. exact ctor_fails_iff. Qed.
+
+(* the environments of the timeout tolerance, exactly (C07_early_timeout_shape as an iff): one
+   page's fault list cut after i <= its length and a timeout there, no scripted T on a page before *)
+Theorem C07_early_timeouts_exact : forall script sc,
+  In sc (early_timeouts script) <->
+  exists pre ps rest i, script = pre ++ ps :: rest /\ sc = pre ++ with_timeout i ps :: rest /\
+    (i <= List.length (ps_faults ps))%nat /\
+    Forall (fun q => existsb is_timeout (ps_faults q) = false) pre.
+Proof. exact early_timeouts_iff. Qed.
+
+(* completeness of the two timeout acceptors: whatever the model does under one of those
+   environments is accepted -- every complete schedule (constructor flag false), a constructor
+   error (flag true), every "lazy consumer, worker runs, drop" schedule *)
+Theorem C07_early_timeout_complete : forall m script sc, In sc (early_timeouts script) ->
+  (forall s0 ls s, pager_init m sc = Some s0 -> run s0 ls = Some s -> s_cons s = CEnded ->
+     accept_full_timeout m script false (s_out s) (map req_key (s_reqs s)) = true) /\
+  (forall rq0 e, start m sc = (rq0, SFail e) ->
+     accept_full_timeout m script true [IErr e; IEnd] (map req_key rq0) = true).
+Proof. exact early_timeout_complete. Qed.
+
+Theorem C07_drop_timeout_complete : forall m script sc s0 lsa sa sb lp s1 ls2 s2,
+  In sc (early_timeouts script) ->
+  pager_init m sc = Some s0 ->
+  run s0 lsa = Some sa ->
+  (sb = sa /\ lsa = [] \/
+   step sa LCons = Some sb /\ List.length (s_out sb) = S (List.length (s_out sa))) ->
+  s_cons sb = CActive ->
+  Forall (eq LProd) lp -> run sb lp = Some s1 ->
+  run s1 (LDrop :: ls2) = Some s2 ->
+  accept_drop_timeout m script (List.length (s_out s2)) (s_out s2) (map req_key (s_reqs s2)) = true.
+Proof. exact drop_timeout_complete. Qed.
+
+(* the primitives of the node relation [follows] / [coord_ok] *)
+Theorem C07_coord_primitives :
+  (forall t used x, fits (Some t) used x = true <-> x = t) /\
+  (forall used x, fits None used x = true <-> ~ In x used) /\
+  (forall (l : list target), last_opt l = None <-> l = []) /\
+  (forall (l : list target) x, last_opt l = Some x <-> exists pre, l = pre ++ [x]).
+Proof. exact coord_primitives. Qed.
+
 (* ---- non-vacuity: concrete scripts and schedules ---------------------------------------- *)
 Definition ex_script : list pscript :=
   [ mk_ps [0; 1; 2] [FErr 4097 DSame] (RRows [1; 2] (Some [170]));
@@ -569,6 +635,50 @@ Example C07_ex_request_count :
   sres_of (PoErr 7) = SErr 7 /\ sres_of (PoResp (RRows [1] None)) = SRows [1] None.
 Proof. repeat split; vm_compute; reflexivity. Qed.
 
+(* deepening round 4: the hypotheses of the two completeness theorems on concrete schedules (the
+   timeout strikes page 1's first attempt: full read, lazy drop after 1 item; page 0: constructor) *)
+Definition ex_t_sc1 : list pscript :=
+  [ mk_ps [0; 1] [] (RRows [1] (Some [7]));
+    with_timeout 0 (mk_ps [0; 1] [FErr 4097 DSame; FTimeout] (RRows [2] None)) ].
+Definition ex_t_sc0 : list pscript :=
+  [ with_timeout 0 (mk_ps [0; 1] [] (RRows [1] (Some [7])));
+    mk_ps [0; 1] [FErr 4097 DSame; FTimeout] (RRows [2] None) ].
+Example C07_ex_timeout_complete :
+  In ex_t_sc1 (early_timeouts ex_t_script) /\ In ex_t_sc0 (early_timeouts ex_t_script) /\
+  (exists s0 s, pager_init MSession ex_t_sc1 = Some s0 /\
+     run s0 [LProd; LProd; LCons; LCons; LCons] = Some s /\ s_cons s = CEnded /\
+     s_out s = [IRow 1; IErr 65536; IEnd] /\
+     accept_full_timeout MSession ex_t_script false (s_out s) (map req_key (s_reqs s)) = true) /\
+  (exists rq0, start MSession ex_t_sc0 = (rq0, SFail 65536) /\
+     ctor_fails MSession ex_t_sc0 = true /\ ctor_fails MSession ex_t_sc1 = false) /\
+  (exists s0 sb s1 s2, pager_init MSession ex_t_sc1 = Some s0 /\
+     step s0 LCons = Some sb /\ List.length (s_out sb) = S (List.length (s_out s0)) /\
+     s_cons sb = CActive /\ run sb [LProd; LProd] = Some s1 /\ run s1 [LDrop] = Some s2 /\
+     s_out s2 = [IRow 1] /\
+     accept_drop_timeout MSession ex_t_script 1 (s_out s2) (map req_key (s_reqs s2)) = true).
+Proof.
+  split; [vm_compute; right; left; reflexivity|].
+  split; [vm_compute; left; reflexivity|].
+  split; [eexists; eexists; split; [reflexivity|]; vm_compute; repeat split|].
+  split; [eexists; vm_compute; repeat split|].
+  eexists; eexists; eexists; eexists. split; [reflexivity|]. vm_compute. repeat split.
+Qed.
+
+(* the predicates as propositions, evaluated: a wrong state or a wrong item refutes prop_full_ok;
+   fits / last_opt on concrete nodes *)
+Example C07_ex_meaning :
+  expected true MSession 2 true ex_t_script = Some [IRow 1; IErr 65536; IEnd] /\
+  prop_full_ok MSession 2 ex_t_script [IRow 1; IErr 65536; IEnd] [(0%nat, None); (1%nat, Some [7])] = true /\
+  prop_full_ok MSession 2 ex_t_script [IRow 1; IErr 65536; IEnd] [(0%nat, None); (1%nat, None)] = false /\
+  prop_full_ok MSession 2 ex_t_script [IRow 1; IEnd] [(0%nat, None); (1%nat, Some [7])] = false /\
+  prop_drop_ok MSession 2 ex_t_script 1 [IRow 1] [(0%nat, None)] = true /\
+  prop_drop_ok MSession 2 ex_t_script 1 [IRow 2] [(0%nat, None)] = false /\
+  accept_full MSession ex_t_sc1 [IRow 1; IErr 65536; IEnd] [(0%nat, None); (1%nat, Some [7])] = true /\
+  obs_items (snd (seq_run MSession ex_t_sc0)) = [IErr 65536; IEnd] /\
+  fits (Some 1) [1] 1 = true /\ fits None [1] 1 = false /\ fits None [1] 2 = true /\
+  last_opt [0; 1; 2] = Some 2 /\ last_opt (@nil target) = None.
+Proof. repeat split; vm_compute; reflexivity. Qed.
+
 Print Assumptions C07_rows.
 Print Assumptions C07_rows_safety.
 Print Assumptions C07_ends.
@@ -603,3 +713,10 @@ Print Assumptions C07_page_outcome_closed_form.
 Print Assumptions C07_attempts_request_count.
 Print Assumptions C07_page_request_count.
 Print Assumptions C07_coordinator_page_lengths.
+Print Assumptions C07_accept_full_exact.
+Print Assumptions C07_prop_predicates_meaning.
+Print Assumptions C07_ctor_fails_iff.
+Print Assumptions C07_early_timeouts_exact.
+Print Assumptions C07_early_timeout_complete.
+Print Assumptions C07_drop_timeout_complete.
+Print Assumptions C07_coord_primitives.
